@@ -62,6 +62,10 @@ BENIGN = {
         "list(top_tmp)[0] picks *the* top particle: the set is asserted to have exactly one element, so its order is immaterial",
         ("assert-len1", "<root>"),
     ),
+    (DEC + "::DecayConfig.get_decay_struct", "next"): (
+        "next(iter(top_tmp)) picks *the* top particle: the set is asserted to have exactly one element, so its order is immaterial",
+        ("assert-len1", "<root>"),
+    ),
     (CORE + "::DecayGroup.set_used_res", "arg:self.set_used_chains"): (
         "the set holds chain indices (ints from enumerate, hashed by value, not by the randomised str hash); the resulting "
         "chains_idx only selects which chains enter the commutative coherent sum - chains, parameter names and constraints "
@@ -806,6 +810,18 @@ def guard_enumerate_index(fn, var):
         if isinstance(n, ast.AugAssign) and isinstance(n.target, ast.Name) and n.target.id == var:
             return False
         if isinstance(n, ast.Call) and isinstance(n.func, ast.Attribute) and isinstance(n.func.value, ast.Name) and n.func.value.id == var:
+            if n.func.attr == "update" and len(n.args) == 1 and isinstance(n.args[0], (ast.GeneratorExp, ast.ListComp, ast.SetComp)):
+                # var.update(j for j, c in enumerate(..) if ..): the elements are the enumerate indices
+                ce = n.args[0]
+                g = ce.generators[0]
+                if not (
+                    len(ce.generators) == 1 and isinstance(ce.elt, ast.Name)
+                    and isinstance(g.iter, ast.Call) and isinstance(g.iter.func, ast.Name) and g.iter.func.id == "enumerate"
+                    and isinstance(g.target, ast.Tuple) and isinstance(g.target.elts[0], ast.Name) and g.target.elts[0].id == ce.elt.id
+                ):
+                    return False
+                adds += 1
+                continue
             if n.func.attr != "add":
                 return False
             if len(n.args) != 1 or not isinstance(n.args[0], ast.Name):
@@ -994,39 +1010,34 @@ def run_alias(repo, chk):
     for a, t in sorted(pkm.items()):
         if t in pkm and pkm[t] != t:
             chk.violation("B-alias", init.key, "particle_key_map:%s" % a, "alias target %r is itself aliased to %r" % (t, pkm[t]), file=DEC, line=init.lineno)
-    # b2 the map is applied: rename_params writes key_map.get(k, k)
+    # b2 the map is applied: rename_params interpreted on a parameter dictionary that holds every alias, every
+    # canonical name and an unknown key, with the two maps as __init__ defines them
     rp = repo.fn(DEC + "::DecayConfig.rename_params")
-    shape_ok = False
-    sel = {}
-    for n in walk_local(rp.node):
-        if isinstance(n, ast.Assign) and len(n.targets) == 1 and isinstance(n.targets[0], ast.Name) and isinstance(n.value, ast.Attribute):
-            if isinstance(n.value.value, ast.Name) and n.value.value.id == "self":
-                sel.setdefault(n.targets[0].id, []).append(n.value.attr)
-        if isinstance(n, ast.Assign) and len(n.targets) == 1 and isinstance(n.targets[0], ast.Subscript):
-            s = n.targets[0].slice
-            if (
-                isinstance(s, ast.Call) and isinstance(s.func, ast.Attribute) and s.func.attr == "get"
-                and isinstance(s.func.value, ast.Name) and len(s.args) == 2
-                and all(isinstance(a, ast.Name) for a in s.args) and s.args[0].id == s.args[1].id
-            ):
-                keymap_var = s.func.value.id
-                shape_ok = True
-    if not shape_ok:
-        chk.violation("B-alias", rp.key, "key_map.get(k, k)", "rename_params no longer stores values under key_map.get(k, k): aliases are not applied", file=DEC, line=rp.lineno)
-    else:
-        srcs = sel.get(keymap_var, [])
-        chk.instance("B-alias", "rename_params stores under %s.get(k, k) with %s in {%s}" % (keymap_var, keymap_var, ", ".join("self." + s for s in srcs)))
-        if sorted(srcs) != ["decay_key_map", "particle_key_map"]:
-            chk.violation("B-alias", rp.key, "key_map", "rename_params selects its map from %s, expected self.particle_key_map / self.decay_key_map" % srcs, file=DEC, line=rp.lineno)
-        d = rp.defaults().get("is_particle")
-        if const_value(d) is not True:
-            chk.violation("B-alias", rp.key, "is_particle", "rename_params(params) no longer defaults to the particle map", file=DEC, line=rp.lineno)
-        # the branch taken for is_particle selects particle_key_map
-        for n in walk_local(rp.node):
-            if isinstance(n, ast.If) and isinstance(n.test, ast.Name) and n.test.id == "is_particle":
-                t = [norm_text(s.value) for s in n.body if isinstance(s, ast.Assign)]
-                if t != ["self.particle_key_map"]:
-                    chk.violation("B-alias", rp.key, "is_particle-branch", "the is_particle branch selects %s" % t, file=DEC, line=n.lineno)
+    from ..sym import Translator, SelfObj, Unmodelled
+    import sympy as _sp
+    dcls = repo.cls(DEC + "::DecayConfig")
+    d = rp.defaults().get("is_particle")
+    if const_value(d) is not True:
+        chk.violation("B-alias", rp.key, "is_particle", "rename_params(params) no longer defaults to the particle map", file=DEC, line=rp.lineno)
+    for label, kwargs, km in (("default", {}, pkm), ("is_particle=True", {"is_particle": True}, pkm), ("is_particle=False", {"is_particle": False}, dkm)):
+        keys = sorted(set(pkm) | set(dkm) | {"unknown_key"})
+        for k in keys:
+            # one key at a time: two aliases of one canonical name legitimately collide
+            params = {k: _sp.Symbol("v_" + k)}
+            tr = Translator(repo, max_depth=2)
+            so = SelfObj(dcls, {"particle_key_map": dict(pkm), "decay_key_map": dict(dkm)})
+            try:
+                got = tr.call_fn(rp, (params,), dict(kwargs), self_obj=so)
+            except Unmodelled as e:
+                raise AnalysisError("rename_params cannot be interpreted: %s" % e)
+            want = {km.get(k, k): params[k]}
+            if not isinstance(got, dict) or got != want:
+                chk.violation(
+                    "B-alias", rp.key, "rename:%s:%s" % (label, k),
+                    "rename_params({%r: v}, %s) returns %r, expected the value under %r" % (k, label, got, km.get(k, k)),
+                    file=DEC, line=rp.lineno,
+                )
+        chk.instance("B-alias", "rename_params interpreted (%s) on %d single-key dictionaries: every key lands on map.get(k, k)" % (label, len(keys)))
     # ... and it is applied before the particle is built
     gds = repo.fn(DEC + "::DecayConfig.get_decay_struct.add_particle")
     order = []
@@ -1187,13 +1198,116 @@ def str_keys_read(fn):
     return out
 
 
+class _SelfSym:
+    """marks the value `self.<name>` in an interpreted export"""
+
+
+_FALSY = [False, None, 0, "", 0.0]
+
+
+def _export_self(repo, fn, cls_key, name, extra=None, falsy=False):
+    """a symbolic object for an export: attribute X holds the marker string "self.X" (or, with falsy=True, a falsy
+    python value - False / None / 0 are legitimate option values that the export must not drop)"""
+    from ..sym import SelfObj
+    cls = repo.cls(cls_key)
+    attrs = {}
+    for n in walk_local(fn.node):
+        if isinstance(n, ast.Attribute) and isinstance(n.value, ast.Name) and n.value.id == "self" and cls.lookup(n.attr) is None:
+            attrs[n.attr] = _FALSY[len(attrs) % len(_FALSY)] if falsy else "self." + n.attr
+    attrs["_kwargs"] = {"<kwargs>": 0 if falsy else "self._kwargs[..]"}
+    attrs["__str__"] = name
+    attrs.update(extra or {})
+    return SelfObj(cls, attrs)
+
+
+def interp_particle_export(repo):
+    """BaseParticle.as_config interpreted on a symbolic particle named R -> (top key, {key: attribute name or None})"""
+    from ..sym import Translator, Unmodelled
+    w = repo.fn(PART + "::BaseParticle.as_config")
+    res = []
+    for falsy in (False, True):
+        so = _export_self(repo, w, PART + "::BaseParticle", "R", falsy=falsy)
+        try:
+            got = Translator(repo, max_depth=2).call_fn(w, (), {}, self_obj=so)
+        except Unmodelled as e:
+            raise AnalysisError("BaseParticle.as_config cannot be interpreted: %s" % e)
+        if not (isinstance(got, dict) and len(got) == 1 and isinstance(list(got.values())[0], dict)):
+            raise AnalysisError("BaseParticle.as_config does not return {name: {options}}: %r" % (got,))
+        res.append(got)
+    (top, inner), = res[0].items()
+    (_, inner_f), = res[1].items()
+    inner = {k: (v if k in inner_f else "<dropped when the value is falsy>") for k, v in inner.items()}
+    return top, {k: (str(v)[5:] if str(v).startswith("self.") else str(v)) for k, v in inner.items()}
+
+
+def interp_decay_export(repo):
+    """BaseDecay.as_config interpreted on A -> B C  -> (core key, daughters, {key: attribute name})"""
+    from ..sym import Translator, Unmodelled, SelfObj
+    w = repo.fn(PART + "::BaseDecay.as_config")
+    pc = repo.cls(PART + "::BaseParticle")
+    res = []
+    for falsy in (False, True):
+        so = _export_self(repo, w, PART + "::BaseDecay", "A->B+C", {"core": SelfObj(pc, {"__str__": "A"}), "outs": [SelfObj(pc, {"__str__": "B"}), SelfObj(pc, {"__str__": "C"})]}, falsy=falsy)
+        try:
+            got = Translator(repo, max_depth=2).call_fn(w, (), {}, self_obj=so)
+        except Unmodelled as e:
+            raise AnalysisError("BaseDecay.as_config cannot be interpreted: %s" % e)
+        if not (isinstance(got, dict) and len(got) == 1 and isinstance(list(got.values())[0], list)):
+            raise AnalysisError("BaseDecay.as_config does not return {core: [daughters.., {options}]}: %r" % (got,))
+        res.append(got)
+    (top, items), = res[0].items()
+    (_, items_f), = res[1].items()
+    names = [x for x in items if isinstance(x, str)]
+    dicts = [x for x in items if isinstance(x, dict)]
+    kept = set(k for x in items_f if isinstance(x, dict) for k in x)
+    dicts = [{k: (v if k in kept else "<dropped when the value is falsy>") for k, v in d_.items()} for d_ in dicts]
+    return top, names, dicts, items
+
+
+def interp_group_export(repo):
+    """DecayGroup.as_config interpreted on a small group; the particle / decay exports are replaced by markers"""
+    from ..sym import Translator, Unmodelled, SelfObj
+    import sympy as sp
+    w = repo.fn(PART + "::DecayGroup.as_config")
+    pc, dc, cc = repo.cls(PART + "::BaseParticle"), repo.cls(PART + "::BaseDecay"), repo.cls(PART + "::DecayChain")
+
+    def P(n):
+        return SelfObj(pc, {"__str__": n})
+
+    def D(core, tag):
+        return SelfObj(dc, {"__str__": tag, "core": P(core), "tag": tag})
+
+    d1, d2, d3 = D("A", "d1"), D("R1", "d2"), D("A", "d3")
+    chains = [SelfObj(cc, {"chain": [d1, d2]}), SelfObj(cc, {"chain": [d3]})]
+    so = SelfObj(repo.cls(PART + "::DecayGroup"), {"top": P("A"), "outs": [P("B"), P("C"), P("D")], "resonances": [P("R1"), P("R2")], "chains": chains, "decay_chains": chains})
+    hooks = {
+        pc.methods["as_config"].key: lambda tr_, a_, k_, n_: {a_[0].attrs["__str__"]: sp.Symbol("particle:" + a_[0].attrs["__str__"])},
+        dc.methods["as_config"].key: lambda tr_, a_, k_, n_: {a_[0].attrs["core"].attrs["__str__"]: sp.Symbol("decay:" + a_[0].attrs["tag"])},
+    }
+    try:
+        got = Translator(repo, hooks=hooks, max_depth=3).call_fn(w, (), {}, self_obj=so)
+    except Unmodelled as e:
+        raise AnalysisError("DecayGroup.as_config cannot be interpreted: %s" % e)
+    want = {
+        "particle": {
+            "$top": {"A": sp.Symbol("particle:A")},
+            "$finals": {n: sp.Symbol("particle:" + n) for n in "BCD"},
+            "R1": sp.Symbol("particle:R1"), "R2": sp.Symbol("particle:R2"),
+        },
+        "decay": {"A": [sp.Symbol("decay:d1"), sp.Symbol("decay:d3")], "R1": [sp.Symbol("decay:d2")]},
+    }
+    return got, want
+
+
 def run_export(repo, chk):
     init = repo.fn(DEC + "::DecayConfig.__init__")
     pkm = {k: const_value(v) for k, v in dict_literal(find_assign(init, "self.particle_key_map").value, "particle_key_map").items()}
     dkm = {k: const_value(v) for k, v in dict_literal(find_assign(init, "self.decay_key_map").value, "decay_key_map").items()}
     # ---- particle export
     w = repo.fn(PART + "::BaseParticle.as_config")
-    keys, _ = str_keys_written(w)
+    top_key, keys = interp_particle_export(repo)
+    has_kwargs_export = "<kwargs>" in keys
+    keys.pop("<kwargs>", None)
     ctor = ctor_param_chain(repo, CORE + "::Particle", PART + "::BaseParticle.__init__")
     gpf = repo.fn(CORE + "::get_particle")
     for p in gpf.all_param_names():
@@ -1214,8 +1328,8 @@ def run_export(repo, chk):
                 "exported particle key %r (canonical %r) is not a parameter of the particle constructors: a reloaded export silently loses it" % (k, canon),
                 file=PART, line=w.lineno,
             )
-        if norm_text(v) != "self.%s" % k:
-            chk.violation("C-key", w.key, "value:%s" % k, "exported key %r carries `%s`, not self.%s" % (k, norm_text(v), k), file=PART, line=w.lineno)
+        if v != k:
+            chk.violation("C-key", w.key, "value:%s" % k, "exported key %r carries `%s`, not self.%s" % (k, v, k), file=PART, line=w.lineno)
     for k in sorted(REQUIRED_PARTICLE_KEYS - set(keys)):
         chk.instance("C-key", "particle export must carry %r - MISSING" % k)
         chk.violation("C-key", w.key, "missing:%s" % k, "the particle export no longer carries %r" % k, file=PART, line=w.lineno)
@@ -1228,17 +1342,22 @@ def run_export(repo, chk):
         if k not in stored or k not in stored[k]:
             chk.violation("C-key", bp.key, "self.%s" % k, "BaseParticle.__init__ does not store parameter `%s` as self.%s, which the export reads" % (k, k), file=PART, line=bp.lineno)
     # extra keyword arguments travel both ways
-    has_kwargs_export = any(isinstance(n, ast.Dict) and any(k is None and norm_text(v) == "self._kwargs" for k, v in zip(n.keys, n.values)) for n in walk_local(w.node))
     kw_stored = "_kwargs" in stored and (bp.node.args.kwarg and bp.node.args.kwarg.arg in stored["_kwargs"])
     chk.instance("C-key", "particle export spreads **self._kwargs: %s ; BaseParticle.__init__ stores its **kwargs there: %s" % (has_kwargs_export, bool(kw_stored)))
     if not (has_kwargs_export and kw_stored):
         chk.violation("C-key", w.key, "**_kwargs", "model-specific particle options are no longer carried by the export", file=PART, line=w.lineno)
     # the export is keyed by the particle name
-    if not any(isinstance(n, ast.Assign) and isinstance(n.targets[0], ast.Subscript) and norm_text(n.targets[0].slice) == "str(self)" for n in walk_local(w.node)):
+    chk.instance("C-key", "BaseParticle.as_config interpreted on a symbolic particle named R: one entry keyed %r, %d option keys" % (top_key, len(keys)))
+    if top_key != "R":
         chk.violation("C-key", w.key, "str(self)", "the particle export is no longer keyed by str(self)", file=PART, line=w.lineno)
     # ---- decay export
     wd = repo.fn(PART + "::BaseDecay.as_config")
-    dkeys, _ = str_keys_written(wd)
+    dtop, dnames, ddicts, ditems = interp_decay_export(repo)
+    chk.instance("C-key", "BaseDecay.as_config interpreted on A -> B C: {%r: %r + %d option dict(s)}" % (dtop, dnames, len(ddicts)))
+    if dtop != "A" or dnames != ["B", "C"] or len(ddicts) != 1 or ditems[:2] != ["B", "C"]:
+        chk.violation("C-key", wd.key, "shape", "the decay export of A -> B C is %r, expected {'A': ['B', 'C', {options}]}" % ({dtop: ditems},), file=PART, line=wd.lineno)
+    dkeys = {k: (str(v)[5:] if str(v).startswith("self.") else str(v)) for d_ in ddicts for k, v in d_.items()}
+    dkeys.pop("<kwargs>", None)
     dctor = ctor_param_chain(repo, CORE + "::HelicityDecay", PART + "::BaseDecay.__init__")
     gd = repo.fn(CORE + "::get_decay")
     gd_reads = str_keys_read(gd)
@@ -1255,8 +1374,8 @@ def run_export(repo, chk):
         chk.instance("C-key", "decay export %r: self.%s -> loader key %r -> parameter `%s` of %s" % (k, k, canon, canon, who or "NOBODY"))
         if who is None:
             chk.violation("C-key", wd.key, "key:%s" % k, "exported decay key %r is not a parameter of the decay constructors" % k, file=PART, line=wd.lineno)
-        if norm_text(v) != "self.%s" % k:
-            chk.violation("C-key", wd.key, "value:%s" % k, "exported key %r carries `%s`, not self.%s" % (k, norm_text(v), k), file=PART, line=wd.lineno)
+        if v != k:
+            chk.violation("C-key", wd.key, "value:%s" % k, "exported key %r carries `%s`, not self.%s" % (k, v, k), file=PART, line=wd.lineno)
         if k not in dstored or k not in dstored[k]:
             chk.violation("C-key", bd.key, "self.%s" % k, "BaseDecay.__init__ does not store parameter `%s` as self.%s" % (k, k), file=PART, line=bd.lineno)
     for k in sorted(REQUIRED_DECAY_KEYS - set(dkeys)):
@@ -1294,8 +1413,12 @@ def run_export(repo, chk):
         chk.violation("C-key", ad.key, "get_decay(**params)", "per-decay options no longer reach get_decay", file=DEC, line=ad.lineno)
     # ---- group export
     wg = repo.fn(PART + "::DecayGroup.as_config")
-    gk, gs = str_keys_written(wg)
-    gkeys = set(gk) | gs
+    ggot, gwant = interp_group_export(repo)
+    chk.instance("C-key", "DecayGroup.as_config interpreted on a group of 2 chains / 3 decays / 2 resonances / 3 finals with the particle and decay exports as markers")
+    if ggot != gwant:
+        chk.violation("C-key", wg.key, "assembly", "the group export is %r, expected %r" % (ggot, gwant), file=PART, line=wg.lineno)
+    gkeys = set(ggot) | set(ggot.get("particle", {}) if isinstance(ggot.get("particle"), dict) else ()) if isinstance(ggot, dict) else set()
+    gkeys = {k for k in gkeys if k in REQUIRED_GROUP_KEYS or k not in ("R1", "R2")}
     readers = [init, repo.fn(DEC + "::DecayConfig.particle_item"), repo.fn(DEC + "::DecayConfig.particle_item_list"), repo.fn(DEC + "::DecayConfig.decay_item"), gds]
     read = set()
     for r in readers:
@@ -1307,13 +1430,6 @@ def run_export(repo, chk):
     for k in sorted(REQUIRED_GROUP_KEYS - gkeys):
         chk.instance("C-key", "group export must carry %r - MISSING" % k)
         chk.violation("C-key", wg.key, "missing:%s" % k, "the group export no longer writes %r" % k, file=PART, line=wg.lineno)
-    # delegation: the group export is assembled from the particle / decay exports
-    calls = [norm_text(c) for c in walk_local(wg.node) if isinstance(c, ast.Call) and isinstance(c.func, ast.Attribute) and c.func.attr == "as_config"]
-    calls += [norm_text(c) for f2 in repo.mod(PART).funcs.values() if f2.parent is wg for c in walk_local(f2.node) if isinstance(c, ast.Call) and isinstance(c.func, ast.Attribute) and c.func.attr == "as_config"]
-    chk.instance("C-key", "group export delegates to %s" % ", ".join(sorted(calls)))
-    for need in ("self.top.as_config()", "i.as_config()", "j.as_config()"):
-        if need not in calls:
-            chk.violation("C-key", wg.key, "delegate:%s" % need, "the group export no longer includes %s" % need, file=PART, line=wg.lineno)
     # `$top` / `$finals` given as dicts are merged into the particle table by particle_item
     pi = repo.fn(DEC + "::DecayConfig.particle_item")
     popped = {}  # local name -> popped key
